@@ -285,10 +285,14 @@ def r16d(chk, rid='R16.d'):
 
     n = 0
     bad = []
-    for start, new in ((['a', 'b'], 'c'), (['a', 'b', 'c'], 'a'), (['a', 'b', 'a', 'c'], 'a'), ([], 'x'), (['a'], 'a'), (['a', 'b'], None)):
+    for start, new in ((['a', 'b'], 'c'), (['a', 'b', 'c'], 'a'), (['a', 'b', 'a', 'c'], 'a'), ([], 'x'), (['a'], 'a'), (['a', 'b'], None), (['a', 'b', 'c'], 0), (['a', 'b', 'a'], 0), (['a', 'b'], 1)):
         seq = [SelM(selectorText=t, tag=i) for i, t in enumerate(start)]
         me = Obj(seq=seq, _checkReadonly=lambda: None, _splitNamespacesOff=lambda t: (t, {}), parentRule=Obj(parentStyleSheet=Obj(namespaces={})), _namespaces={})
-        prepared = SelM(selectorText=new, tag='new') if new is not None else None
+        if isinstance(new, int):
+            prepared = seq[new]  # a Selector object that is a member of the list already (sl.append(sl[0])): it moves to the end
+            new = prepared.selectorText
+        else:
+            prepared = SelM(selectorText=new, tag='new') if new is not None else None
         setattr(me, '__prepareset', lambda sel, ns=None, prepared=prepared: prepared)
         res = Evaluator(fn, module=lm, cls='SelectorList').run(self=me, newSelector=new or 'invalid')
         n += 1
@@ -296,7 +300,7 @@ def r16d(chk, rid='R16.d'):
         want = [t for t in start if t != new] + ([new] if new is not None else [])
         if new is None:
             want = start
-        if isinstance(res, Raised) or got != want or (new is not None and res is not prepared):
+        if isinstance(res, Raised) or got != want or (new is not None and (res is not prepared or me.seq[-1] is not prepared)):
             bad.append(f'{start} + {new!r}: {got}, prescribed {want}' + (f' ({res!r})' if isinstance(res, Raised) else ''))
     chk.ob(rid, SELLIST, 'SelectorList.appendSelector', f'all {n} cases: every selector with the same text is removed and the new one is appended at the end; a selector that cannot be prepared changes nothing (by evaluation)', not bad, ' | '.join(bad[:2]))
     fn2 = chk.repo.fn(SELLIST, 'SelectorList._setSelectorText')
